@@ -18,8 +18,10 @@ for d in srcdirs:
             print("skip", tag, line[:80]); continue
         out = f"/verif/seeded/{prop}-{rnd}{x}"
         os.makedirs(out, exist_ok=True)
-        shutil.copy(f"{d}/mutant_{x}.diff", f"{out}/patch.diff")
-        shutil.copy(f"{d}/demo_{x}.py", f"{out}/demo.py")
+        if not os.path.exists(f"{out}/patch.diff"):  # an existing patch may have been re-created on a later /repo commit: keep it
+            shutil.copy(f"{d}/mutant_{x}.diff", f"{out}/patch.diff")
+            shutil.copy(f"{d}/demo_{x}.py", f"{out}/demo.py")
+        old_meta = json.load(open(f"{out}/meta.json")) if os.path.exists(f"{out}/meta.json") else {}
         notes = open(f"{d}/notes.md").read() if os.path.exists(f"{d}/notes.md") else ""
         # which checks catch it (own property first)
         import tempfile
@@ -46,5 +48,7 @@ for d in srcdirs:
             "caught_by": caught,
             "caught_by_own_property_check": prop in caught,
         }
+        if "rebased" in old_meta:
+            meta["rebased"] = old_meta["rebased"]
         json.dump(meta, open(f"{out}/meta.json", "w"), indent=1)
         print(tag, "->", out, "own" if prop in caught else "OTHER-ONLY", caught.get(prop))
